@@ -81,7 +81,9 @@ def main():
                    assumptions=[])
     except common.HarnessError:
         raise
-    except Exception as e:       # noqa: the implementation behaved in a way the tie's driver cannot even process
+    except (KeyboardInterrupt, SystemExit):
+        raise
+    except BaseException as e:       # noqa: the implementation behaved in a way the tie's driver cannot even process (incl. BaseException subclasses of the library)
         import traceback
         tb = traceback.format_exc()
         tie = dict(coverage=dict(programs=0, evaluations=0, tie_aborted=True),
